@@ -155,6 +155,16 @@ func checkProgram(src string, feats map[string]int, inputs ...inputVar) {
 		return
 	}
 	real, _ := realOutcome(src, inputs)
+	if feats["forin-map"] > 0 || strings.Contains(src, " in ") {
+		// Go map iteration order is random: a program whose outcome depends on it is outside the property
+		for k := 0; k < 3; k++ {
+			if again, _ := realOutcome(src, inputs); again != real {
+				res.Skipped++
+				res.Dist("skip:map-order-dependent")
+				return
+			}
+		}
+	}
 	if drv == nil {
 		res.Count("spec", src, false)
 		return
